@@ -294,7 +294,22 @@ impl C12 {
                 return Verdict::Fail(format!("harness: {}", e));
             }
         }
+        // a parsed document with xml:id attributes: the id index is part of the store
+        // (not part of the model forest; nothing below mutates it before the final step)
+        let id_doc = match sim.xot.parse("<r xml:id=\"top\"><a xml:id=\"i1\"><c xml:id=\"deep\"/></a><b xml:id=\" i2 \"/></r>") {
+            Ok(d) => d,
+            Err(e) => return Verdict::Fail(format!("harness: {}", e)),
+        };
+        const IDS: &[&str] = &["top", "i1", "deep", "i2", "absent"];
+        let id_view = |x: &Xot| -> Vec<Option<Node>> { IDS.iter().map(|i| x.xml_id_node(id_doc, i)).collect() };
+        let ids_before = id_view(&sim.xot);
+        if ids_before[..4].iter().any(|n| n.is_none()) || ids_before[4].is_some() {
+            return Verdict::Fail(format!("harness: xml_id_node on the parsed id document gives {:?}", ids_before));
+        }
         let copy = sim.xot.clone();
+        if id_view(&copy) != ids_before {
+            return Verdict::Fail(format!("xml_id_node in the cloned Xot gives {:?}, in the original {:?} (ids {:?})", id_view(&copy), ids_before, IDS));
+        }
         let roots: Vec<Node> = sim.model.roots().into_iter().map(|r| sim.handle(r)).collect();
         let read_all = |x: &Xot| -> Result<Vec<ANode>, String> { roots.iter().map(|r| bridge::read(x, *r)).collect() };
         let orig_view = match read_all(&sim.xot) {
@@ -368,6 +383,12 @@ impl C12 {
             }
         }
         copy.add_name("only-in-copy");
+        // removing an identified element in the original leaves the copy's index alone
+        if let Some(a) = ids_before[1] {
+            if sim.xot.remove(a).is_ok() && id_view(&copy) != ids_before {
+                return Verdict::Fail("removing an element with an xml:id from the original changed xml_id_node in the cloned Xot".into());
+            }
+        }
         if now {
             if let Err(e) = sim.compare(&Effect::default()) {
                 return Verdict::Fail(format!("mutating the cloned Xot changed the original: {}", e));
